@@ -484,6 +484,35 @@ def operand_stratum(chk, srv):
                             bad += 1
                             chk.violation('line-file-name/second-name-does-not-replace-the-first', 'after %r and then %r%s the location is %s:%d, cproc reports %r' % (
                                 form1 % f1, form2 % f2, ' and #line 20' if tail else '', exp[0], exp[1], got), files={'input.c': text}, cmd='$CPROC_QBE < input.c 2>&1 >/dev/null | head -n 1')
+    # sequences of line directives read while the preprocessor looks ahead for the '(' of a function-like macro name that ends its line
+    # (the directive is then processed from inside the look-ahead, with another "current token" than usual; seeded round 8): the
+    # presumed file of a directive without a name is the file in force, whatever was the current token when the directive was met
+    dforms = (('# 10 "a.h" 1', 'a.h', 10), ('#line 20', None, 20), ('#line 30 "b.h"', 'b.h', 30), ('# 40 "c.h"', 'c.h', 40), ('# 50', None, 50))
+    ctxs = (('funclike-name-ends-line', '#define F(x) x\nint F\n%s;\n'), ('name-from-macro-body', '#define F(x) x\n#define H F\nint H\n%s;\n'),
+            ('object-like-name', '#define O o\nint O\n%s;\n'), ('plain-name', 'int p\n%s;\n'),
+            ('funclike-name-after-named-directive', '#define F(x) x\n# 5 "first.h"\nint F\n%s;\n'),
+            ('funclike-name-twice', '#define F(x) x\nint F\n#line 70 "mid.h"\n, F\n%s;\n'))
+    for cname, ctx in ctxs:
+        for k in (1, 2, 3):
+            for seq in itertools.product(dforms, repeat=k):
+                text = (ctx % ''.join(d[0] + '\n' for d in seq) + 'int x = ;\n').encode()
+                fn = 'first.h' if 'first.h' in ctx else 'mid.h' if 'mid.h' in ctx else '<stdin>'
+                for d in seq:
+                    fn = d[1] or fn
+                exp = (fn, seq[-1][2] + 1)
+                r = srv.compile(text, cpu_s=5)
+                n += 1
+                got = _first_diag(r.err) if r.status == 1 else ('status', r.status)
+                if got != exp:
+                    ws = []
+                    for tool in ('gcc', 'clang'):
+                        w = subprocess.run([tool, '-fsyntax-only', '-xc', '-'], input=text, stdout=subprocess.PIPE, stderr=subprocess.PIPE, timeout=60)
+                        wm = re.search(rb'^(.*?):(\d+):\d+: error: ', w.stderr, re.M)
+                        ws.append((wm.group(1).decode('latin-1'), int(wm.group(2))) if wm else None)
+                    if ws[0] == exp and ws[1] == exp:
+                        bad += 1
+                        chk.violation('line-directives-in-lookahead/' + cname, 'after %s in context %s the next line is at %s:%d, cproc reports %r' % (
+                            ' / '.join(d[0] for d in seq), cname, exp[0], exp[1], got), files={'input.c': text}, cmd='$CPROC_QBE < input.c 2>&1 >/dev/null | head -n 1')
     return n, bad
 
 
